@@ -477,6 +477,7 @@ def main():
   # both node indexes are exactly that set (a dependency kept for a cell that no longer reads it keeps a broken cycle alive)
   from vlib.pysym import runner
   common.setup_grist_path()
+  runner.semantics_selfcheck(rep)
   runner.run_property(rep, "contracts.C05_graph", bounded=False)
   return rep.finish()
 
